@@ -925,6 +925,24 @@ pub fn restricted_scope_duplicates(nm: &Names) -> Vec<F> {
     out
 }
 
+/// Wild-card propositions counted across scopes: %p% several times inside the scope of a variable with a restricted domain
+/// (within a duplicated sub-formula that does not mention the variable), and one to three more times outside it, in both orders.
+/// Texts (user syntax with %p%, %d%, proposition a); bookkeeping of how often a context set is still needed must not depend on scopes.
+pub fn wildcard_count_texts() -> Vec<String> {
+    let mut out = vec![];
+    for q in ["3", "V", "!"] {
+        for inner in ["(EF %p% & AX EF %p%)", "((EF %p%) | (AX (EF %p%)) | {x})", "((AX %p%) & (AX %p%) & (AX %p%))", "(@{x}: ((EX %p%) & (EX %p%)))"] {
+            for outer in ["%p%", "(%p% | AX %p%)", "(%p% & (EX %p%) & (AG %p%))", "(!{y}: (%p% & AX ({y} | %p%)))"] {
+                for glue in ["&", "|"] {
+                    out.push(format!("({q}{{x}} in %d%: {inner}) {glue} {outer}"));
+                    out.push(format!("{outer} {glue} ({q}{{x}} in %d%: {inner})"));
+                }
+            }
+        }
+    }
+    out
+}
+
 /// Two-operator nests: every binary operator over every unary operator in either operand position
 /// (leaves: the propositions, True and False), and the same with a state variable / a closed fixed-point
 /// sub-formula as the inner operand. 4..7 nodes; systematic, not sampled.
